@@ -51,6 +51,10 @@ class Run:
         self.t0 = time.time()
 
     # ---------------------------------------------------------------- rules
+    def bound(self, quick, thorough):
+        """enumeration bound of a rule: the thorough tier explores a larger (still finite) part of the domain"""
+        return thorough if self.tier == "thorough" else quick
+
     def begin(self, rule: str, desc: str, floor: int = 1):
         self._cur = rule
         self.rule_stats[rule] = {
